@@ -395,6 +395,12 @@ def run(ctx, deep, model_ok):
             for sg in ('A', 'C'):
                 fixed.append(dict({'kind': 'multiply', 'version': 'gfa1', 'lines': base, 'segment': sg, 'factor': k, 'policy': None,
                                    'names': None}, **({'opts': opts} if opts else {})))
+    # an identifier that is only mentioned (a link or a path over a segment without S line) is in use as well: the copies
+    # get other names and the mention keeps standing for the undefined segment
+    for extra in (['L\tB\t+\tA*2\t+\t1M'], ['L\tA*3\t-\tC\t+\t*', 'L\tB\t+\tA*2\t-\t1M'], ['P\tp\tB+,A*2+\t*']):
+        for k in (2, 3):
+            fixed.append({'kind': 'multiply', 'version': 'gfa1', 'lines': base + extra, 'segment': 'A', 'factor': k,
+                          'policy': None, 'names': None})
     for i in range(-len(fixed), n):
         case = fixed[i + len(fixed)] if i < 0 else gen_case(rng, i)
         r = impl.outcome(lambda: judge(case))
